@@ -1,4 +1,5 @@
 import ButlerModel.Model.Txn
+import ButlerModel.Model.TxnCache
 /-! Handlers for transaction programs (C07). Program syntax (prefix tokens):
 `P id` put, `F` fail, `B n <n programs>` block, `T n <n programs>` try-block. -/
 namespace Driver.C07
@@ -36,3 +37,42 @@ def handle (toks : List String) : String :=
   | _ => "bad-op"
 
 end Driver.C07
+
+/-! Cache / prune programs: `I id` insert row, `R` cached read, `U id` prune, `F`, `B n …`, `T n …`.
+Request: `txc run <fix> <rows csv|-> <ds csv|-> <program>` (files start equal to ds). -/
+namespace Driver.C07c
+open TxnCache
+
+mutual
+partial def parseProg : List String → Option (Prog × List String)
+  | "I" :: id :: rest => id.toNat?.map fun i => (.ins i, rest)
+  | "R" :: rest => some (.read, rest)
+  | "U" :: id :: rest => id.toNat?.map fun i => (.prune i, rest)
+  | "F" :: rest => some (.fail, rest)
+  | "B" :: n :: rest => match n.toNat? with
+      | some n => (parseN n rest).map fun (ps, r) => (.block ps, r)
+      | none => none
+  | "T" :: n :: rest => match n.toNat? with
+      | some n => (parseN n rest).map fun (ps, r) => (.tryBlock ps, r)
+      | none => none
+  | _ => none
+partial def parseN : Nat → List String → Option (List Prog × List String)
+  | 0, rest => some ([], rest)
+  | n + 1, toks => match parseProg toks with
+      | some (p, r) => (parseN n r).map fun (ps, r') => (p :: ps, r')
+      | none => none
+end
+
+def csv (s : String) : Option (List Nat) :=
+  if s == "-" then some [] else (s.splitOn ",").mapM (·.toNat?)
+
+def handle (toks : List String) : String :=
+  match toks with
+  | "run" :: fix :: rows :: ds :: prog => match parseProg prog, csv rows, csv ds with
+      | some (p, []), some rows, some ds =>
+        let (s, failed) := run (fix == "1") 1000 p { rows := rows, ds := ds, files := ds }
+        s!"failed={failed} view={Driver.C07.r (view s)} rows={Driver.C07.r s.rows} ds={Driver.C07.r s.ds} files={Driver.C07.r s.files}"
+      | _, _, _ => "bad-op"
+  | _ => "bad-op"
+
+end Driver.C07c
